@@ -29,7 +29,7 @@
   decidable predicate `SupportedBy` (Spec/RRuleSupported.lean; driver op `rrule.supported`).
   Missing: MINUTELY with BYHOUR and SECONDLY with BYHOUR / BYMINUTE / BYSECOND (the reachability
   loops `minutelyLoop` / `secondlyLoop` beyond their first pass are only proved monotone), BYWEEKNO / BYEASTER
-  for the other frequencies, nth BYDAY with plain BYDAY (all of it inside D-C01a), BYWEEKNO with BYEASTER or
+  under WEEKLY (BYWEEKNO under MONTHLY and DAILY..SECONDLY is covered) and BYEASTER outside YEARLY, nth BYDAY with plain BYDAY (all of it inside D-C01a), BYWEEKNO with BYEASTER or
   nth BYDAY.  Everything else below — including
   `iter_strictMono` for all seven frequencies — is proved for ALL rules / all argument sets, with no
   `Supported` hypothesis (so also inside the known-defect classes).
@@ -50,6 +50,8 @@ import DateutilVerif.Proofs.RRuleOrig
 import DateutilVerif.Proofs.RRuleSecondly
 import DateutilVerif.Proofs.RRuleSupported
 import DateutilVerif.Proofs.RRuleAmbient
+import DateutilVerif.Proofs.RRuleDailyW
+import DateutilVerif.Proofs.RRuleMonthlyW
 
 namespace C01
 open RRule Cal RRule.Tables
@@ -438,6 +440,25 @@ theorem iter_eq_spec_yearly_weekno_partial (a : Args) (r : Rule) (wa : WeeknoYAr
     (iter r n).1 = Spec.RRule.occ a n :=
   iter_eq_spec_yearly_weekno wa h n hy
 
+/-- **`iter_eq_spec`, proved portion, MONTHLY with BYWEEKNO** on the complement of D-C01c: INTERVAL ≥ 1, valid start,
+    week start 0..6, any BYMONTH / BYMONTHDAY (non-zero) / BYYEARDAY / plain BYDAY / time parts / BYSETPOS, any COUNT /
+    UNTIL, no nth BYDAY / BYEASTER. -/
+theorem iter_eq_spec_monthly_weekno_partial (a : Args) (r : Rule) (wa : WeeknoMArgs a) (h : construct a = .ok r)
+    (n : Nat) (hm : (a.dtstart.y * 12 + (a.dtstart.m - 1) + n * a.interval) / 12 ≤ 9999) :
+    (iter r n).1 = Spec.RRule.occ a n :=
+  iter_eq_spec_monthly_weekno wa h n hm
+
+/-- **`iter_eq_spec`, proved portion, DAILY with BYWEEKNO** — and the same extension holds in the five sub-daily
+    theorems below: their argument classes (`HourlyArgs`, `HourlyByArgs`, `MinutelyArgs`, `MinutelyByArgs`,
+    `SecondlyArgs`) take `WArg a`: BYWEEKNO absent, or a non-empty list on the complement of D-C01c (a listed
+    52/53 comes with −1, a listed −52/−53 with 1) with a week start 0..6.  The BY-filter of these families is
+    treated through one abstraction (Proofs/RRuleWFilter.lean): `rebuild` keeps an invariant under which the
+    filter of a day is `simpleOk ∧ week clause`, which is the specification's `dateOk`. -/
+theorem iter_eq_spec_daily_weekno_partial (a : Args) (r : Rule) (da : DailyWArgs a) (h : construct a = .ok r)
+    (n : Nat) (hn : Spec.RRule.startOrd a + n * a.interval ≤ maxOrdinal) :
+    (iter r n).1 = Spec.RRule.occ a n :=
+  iter_eq_spec_daily_w da h n hn
+
 /-- **`iter_eq_spec`, proved portion, HOURLY** (no BYHOUR): INTERVAL ≥ 1, valid start, any BYMONTH /
     BYMONTHDAY (non-zero) / BYYEARDAY / BYDAY / BYMINUTE / BYSECOND (members 0..59; outside, the generator
     raises while iterating) / BYSETPOS, any COUNT / UNTIL, no BYWEEKNO / BYEASTER.  The generator does not
@@ -610,7 +631,7 @@ example : WeeknoYArgs { freq := 0, dtstart := dt 2020 1 1, wkst := some 6, bywee
 -- an HourlyArgs instance: every 5 hours on Mondays at :00 and :30 — one turn per removed day (Tue..Sun)
 example : HourlyArgs { freq := 4, dtstart := dt 2024 1 1 7, interval := 5, byweekday := some [(0, 0)],
                        byminute := some [0, 30] } :=
-  ⟨rfl, by decide, by decide, rfl, rfl, by intro x hx; simp at hx, rfl, by decide, by intro x hx; simp at hx⟩
+  ⟨rfl, by decide, by decide, Or.inl rfl, rfl, by intro x hx; simp at hx, rfl, by decide, by intro x hx; simp at hx⟩
 example : ((match construct { freq := 4, dtstart := dt 2024 1 1 7, interval := 5, byweekday := some [(0, 0)],
                                byminute := some [0, 30] } with
             | .ok r => (iterDT r 12).1 | .error _ => []).map (fun (t : DT) => (t.d, t.hh, t.mm))) =
@@ -619,21 +640,33 @@ example : ((match construct { freq := 4, dtstart := dt 2024 1 1 7, interval := 5
 
 -- a MinutelyArgs and a SecondlyArgs instance: every 90 minutes in March; every 45 s on the 1st of the month
 example : MinutelyArgs { freq := 5, dtstart := dt 2024 2 28 23 30, interval := 90, bymonth := some [3] } :=
-  ⟨rfl, by decide, by decide, rfl, rfl, by intro x hx; simp at hx, rfl, rfl, by intro x hx; simp at hx⟩
+  ⟨rfl, by decide, by decide, Or.inl rfl, rfl, by intro x hx; simp at hx, rfl, rfl, by intro x hx; simp at hx⟩
 example : SecondlyArgs { freq := 6, dtstart := dt 2024 2 29 23 59 30, interval := 45, bymonthday := some [1] } :=
-  ⟨rfl, by decide, by decide, rfl, rfl, by decide, rfl, rfl, rfl⟩
+  ⟨rfl, by decide, by decide, Or.inl rfl, rfl, by decide, rfl, rfl, rfl⟩
 
 -- an HourlyByArgs instance: every 7 hours, only at 9:00 and 17:00 (interval coprime to 24: every hour is reachable)
 example : HourlyByArgs { freq := 4, dtstart := dt 2024 1 1 9, interval := 7, byhour := some [9, 17] } :=
-  ⟨rfl, by decide, by decide, rfl, rfl, by intro x hx; simp at hx, ⟨[9, 17], rfl, by decide⟩,
+  ⟨rfl, by decide, by decide, Or.inl rfl, rfl, by intro x hx; simp at hx, ⟨[9, 17], rfl, by decide⟩,
    by intro x hx; simp at hx, by intro x hx; simp at hx⟩
 example : ((match construct { freq := 4, dtstart := dt 2024 1 1 9, interval := 7, byhour := some [9, 17] } with
             | .ok r => (iterDT r 4).1 | .error _ => []).map (fun (t : DT) => (t.d, t.hh))) =
     [(1, 9), (3, 17), (8, 9), (10, 17)] := by decide +kernel
 -- a MinutelyByArgs instance: every 25 minutes, only at :00 and :30 (gcd(25, 60) = 5: both are reachable from :00)
 example : MinutelyByArgs { freq := 5, dtstart := dt 2024 1 1 9, interval := 25, byminute := some [0, 30] } :=
-  ⟨rfl, by decide, by decide, rfl, rfl, by intro x hx; simp at hx, rfl, ⟨[0, 30], rfl, by decide⟩,
+  ⟨rfl, by decide, by decide, Or.inl rfl, rfl, by intro x hx; simp at hx, rfl, ⟨[0, 30], rfl, by decide⟩,
    by intro x hx; simp at hx⟩
+-- a WeeknoMArgs instance: the Mondays of weeks 10 and 20, scanned month by month
+example : WeeknoMArgs { freq := 1, dtstart := dt 2024 1 1 9, byweekno := some [10, 20], byweekday := some [(0, 0)] } :=
+  ⟨rfl, by decide, by decide, by decide, by intro x hx; simp at hx, rfl, by decide,
+   ⟨[10, 20], rfl, by decide, ⟨by decide, by decide⟩⟩⟩
+-- a DailyWArgs instance: every day of ISO week 1 and of the last week of the year
+example : DailyWArgs { freq := 3, dtstart := dt 2024 12 1 9, byweekno := some [1, -1] } :=
+  ⟨rfl, by decide, by decide, Or.inr ⟨[1, -1], rfl, by decide, ⟨by decide, by decide⟩, by decide, by decide⟩, rfl,
+   by intro x hx; simp at hx⟩
+example : dates (construct { freq := 3, dtstart := dt 2024 12 1 9, byweekno := some [1, -1] }) 40
+    = [(2024, 12, 23), (2024, 12, 24), (2024, 12, 25), (2024, 12, 26), (2024, 12, 27), (2024, 12, 28), (2024, 12, 29),
+       (2024, 12, 30), (2024, 12, 31), (2025, 1, 1), (2025, 1, 2), (2025, 1, 3), (2025, 1, 4), (2025, 1, 5)] := by
+  decide +kernel
 -- the classifier on three argument sets: a supported one, one inside D-C01a, one with BYHOUR under MINUTELY
 example : family { freq := 0, dtstart := dt 1997 5 12 9, byweekno := some [20], byweekday := some [(0, 0)] }
     = some .yearlyWeekno := by decide +kernel
